@@ -241,6 +241,11 @@ def run(tier, seed, replay=None):
         # ... and a device re-added WHILE its removal still waits for the reader's CloseConnectionResponse (held back by the scripted
         # reader: answered late on even rounds, never on odd ones), through every API that can make a name managed
         scripts = ["readd2 %s %d" % (api, 8 if thorough else 2) for api in ("add", "update", "cmd")] + scripts
+        # an address change as EdgeX delivers it (Driver.UpdateDevice with every admin state), by KIND of change (other port, other
+        # IPv4 address, IPv4-mapped spelling of the same endpoint, IPv6 with another zone, a host name resolving elsewhere, the
+        # same address) x device connected / in its back-offs / not yet managed: the next attempt dials the address given
+        scripts = ["addr %s %s %s" % (k, a, st) for k in ("port", "ip4", "mapped", "zone", "name", "same")
+                   for a in ("locked", "unlocked") for st in ("conn", "backoff", "new")] + scripts
         # Stop right after NewLLRPDevice (about to dial): either of the model's two Stop events
         scripts = ["1 Y", "0 Y", "1 y Q", "1 Y U1 Q", "0 y U1"] + scripts
         # what the supervisor model treats as atomic takes time (Driver/SupervisorFlight.v):
@@ -316,7 +321,7 @@ def run(tier, seed, replay=None):
         missing = [i for i in range(len(reqs)) if answers[i] is None]
         rc = 0 if not missing else 1
         lines = [a if a is not None else "!noanswer" for a in answers]
-        orc, oout = vlib.run_oracle("c15", "consts\n" + "".join((s if s.startswith(("start ", "race ", "readd ", "readd2 ", "hold ", "pend ")) else "run " + s) + "\n" for s in batch))
+        orc, oout = vlib.run_oracle("c15", "consts\n" + "".join((s if s.startswith(("start ", "race ", "readd ", "readd2 ", "addr ", "hold ", "pend ")) else "run " + s) + "\n" for s in batch))
         return rc, lines, glog_all, [l for l in oout.split("\n")]
 
     rc, lines, glog, olines = execute(scripts)
@@ -356,6 +361,19 @@ def run(tier, seed, replay=None):
                 d.append("connections of one name: Go (at a time, after removal, left open) %s, registry model %s" % (gm.group(1, 2, 3), mm.group(1, 2, 3)))
             if gm.group(4) != gm.group(5):
                 d.append("commands answered %s of %s" % (gm.group(4), gm.group(5)))
+            return d
+        if s.startswith("addr "):
+            gm = re.match(r"stored=([01]) next=(\w+) reached=([01-])$", g)
+            mm = re.match(r"stored=([01]) next=(\w+) reached=([01])$", o)
+            if not gm or not mm:
+                return ["irregular: %s / %s" % (g[:80], o[:80])]
+            d = []
+            if gm.group(1) != mm.group(1):
+                d.append("address stored after UpdateDevice: Go %s, model %s" % (gm.group(1), mm.group(1)))
+            if gm.group(2) != mm.group(2) and not (mm.group(2) == "any" and gm.group(2) in ("none", "new")):
+                d.append("next attempt after UpdateDevice: Go dials %s, model %s" % (gm.group(2), mm.group(2)))
+            if gm.group(3) != "-" and gm.group(3) != mm.group(3):
+                d.append("new endpoint reached: Go %s, model %s" % (gm.group(3), mm.group(3)))
             return d
         if s.startswith("readd2 "):
             gm = re.match(r"managed=(\d+)/(\d+) connected=(\d+)/(\d+) maxconc=(\d+) inside=(\d+)$", g)
@@ -437,6 +455,20 @@ def run(tier, seed, replay=None):
                 return [("orphan-supervisor", "%s callers asked together for the same unmanaged device name (%s rounds): up to %s connections of that one device at a time, "
                          "%s new connection(s) and %s still open after RemoveDevice returned" % (s.split()[1], s.split()[2], m.group(1), m.group(2), m.group(3)))]
             return []
+        if s.startswith("addr "):
+            m = re.match(r"stored=([01]) next=(\w+) reached=([01-])$", g)
+            if m and (m.group(1) == "0" or m.group(2) in ("old", "other") or m.group(3) == "0"):
+                _, kind, admin, state = s.split()
+                what = {"port": "another port", "ip4": "another IPv4 address", "mapped": "the IPv4-mapped IPv6 spelling of the same endpoint",
+                        "zone": "the same IPv6 link-local address with another zone", "name": "a host name resolving to another address",
+                        "same": "the same address"}.get(kind, kind)
+                return [("addr-not-followed", "Driver.UpdateDevice (admin state %s) gave a device that was %s %s: afterwards the device %s the address given, "
+                         "its next attempt dialled %s, the new endpoint %s (%s)" %
+                         (admin, {"conn": "connected", "backoff": "in its back-offs", "new": "not yet managed"}.get(state, state), what,
+                          "had stored" if m.group(1) == "1" else "had NOT stored",
+                          {"new": "the new address", "old": "the OLD address", "other": "another address", "none": "nothing (no attempt)"}[m.group(2)],
+                          {"1": "was reached", "0": "was never reached", "-": "is not reachable in this scenario"}[m.group(3)], g))]
+            return []
         if s.startswith("readd2 "):
             m = re.match(r"managed=(\d+)/(\d+) connected=(\d+)/(\d+) maxconc=(\d+) inside=(\d+)", g)
             if m and (m.group(1) != m.group(2) or m.group(3) != m.group(4)):
@@ -511,7 +543,7 @@ def run(tier, seed, replay=None):
     suspects = []
     for s, g, o in zip(scripts, lines[1:], olines[1:]):
         evals += 1
-        if s.startswith(("race ", "readd ", "readd2 ")):
+        if s.startswith(("race ", "readd ", "readd2 ", "addr ")):
             dist[s.split()[0]] = dist.get(s.split()[0], 0) + 1
             nontriv.add(s)
         elif s.startswith("start "):
